@@ -63,6 +63,22 @@ def replay(payload):
     return check(payload["case"])["fails"]
 
 
+SAFETY_NATIVE = ("c-runtime:", "c-input-modified", "c-nonzero-return", "llvm-crash", "llvm-nonzero-return")
+
+
 def run(chk):
     n = 480 if chk.tier == "quick" else 30000
     chk.absorb(run_stream(__name__, "main", chk.tier, chk.seed, n), shrink=shrink_case)
+    # the same three kernel kinds from the emitted C under ASan+UBSan (clang and gcc) and from the LLVM JIT;
+    # only the safety buckets belong to C05 (agreement of results is C06's business)
+    from ..runner import run_tasks
+    from . import c06
+
+    per = 4 if chk.tier == "quick" else 320
+    tasks = [(chk.tier, chk.seed + 17, s, per, True, "clang-14" if s % 2 == 0 else "gcc") for s in range(16)]
+    native = run_tasks(c06.kernel_shard, tasks).keep_buckets(lambda b: b.startswith(SAFETY_NATIVE))
+    native.nontrivial_keys = set()  # counted on the abstract machine only
+    native.samples = []
+    chk.stats.counters["native_sanitizer_kernel_cases"] += native.evaluations
+    native.evaluations = 0
+    chk.absorb(native, kind="case")
